@@ -8,7 +8,7 @@ NOCPRF = {"kind": "absent", "eval": "absent", "byCred": [], "byCredGiven": False
 DOMS = [("o.r1w", "r1", "r1", "ok"), ("o.r1p", "r1", "r1", "ok"), ("o.and.r1", "absent", "r1", "ok"), ("o.r2", "absent", "r2", "ok"),
         ("o.evil", "r1", "r1", "OriginRpMissmatch"), ("o.http", "r1", "r1", "UnprotectedOrigin"), ("o.r1w", "com", "com", "InvalidRpId"),
         ("o.local", "absent", "localhost", "InsecureLocalhostNotAllowed"), ("o.and.evil", "r1", "r1", "OriginRpMissmatch"),
-        ("o.r1", "absent", "r1", "ok"), ("o.and.r1w", "r1", "r1", "ok")]
+        ("o.r1", "absent", "r1", "ok"), ("o.and.r1w", "r1", "r1", "ok"), ("o.idn", "absent", "r3", "ok"), ("o.idnu", "r3", "r3", "ok")]
 STATUSES = [1, 2, 21, 40, 46, 39, 127, 242, 224]
 
 
@@ -121,6 +121,7 @@ def behaviour(rnd):
                       "requireRk": rnd.random() < 0.5, "uvreq": rnd.choice(["required", "preferred", "discouraged"]),
                       "credProps": rnd.choice(["absent", "false", "true"]), "cdmode": rnd.choice(["default", "extra", "hash"]),
                       "cprf": cp, "pinAuth": False, "hs": "absent", "up": True,
+                      "att": rnd.choice(["absent", "absent", "none", "indirect", "direct", "enterprise"]),
                       "prf": {"given": kind != "absent", "eval": cp["eval"], "byCred": by, "byCredGiven": given}})
             cers.append({"api": "client", "op": op, "req": r, "env": e})
         else:
